@@ -206,6 +206,7 @@ type FnCtx struct {
 	obs     []*Obligation
 	counts  map[string]int
 	touched map[string]bool // heap keys written in this function
+	views   map[string]viewInfo // byte regions that mirror a flat struct (unsafe views), by region ref
 	notes   map[string]bool // abstractions / assumptions reached
 	light   bool
 	depth   int
@@ -419,6 +420,12 @@ func arrSort(elem bool, leaf string) string {
 }
 
 func (fc *FnCtx) load(st *State, p PtrV, t types.Type) Val {
+	if p.Kind == PView {
+		return fc.viewLoad(st, p, t)
+	}
+	if p.Kind == PElem && fc.views != nil {
+		fc.viewRefresh(st, p.Ref)
+	}
 	if p.Kind == PArr {
 		// whole array value
 		at := t.Underlying().(*types.Array)
@@ -487,6 +494,15 @@ func (fc *FnCtx) wellTyped(t types.Type, v Val) Val {
 }
 
 func (fc *FnCtx) store(st *State, p PtrV, t types.Type, v Val) {
+	if p.Kind == PView {
+		fc.viewStore(st, p, t, v)
+		return
+	}
+	if p.Kind == PElem && fc.views != nil {
+		if _, ok := fc.views[p.Ref]; ok {
+			defer fc.viewWriteBack(st, p.Ref)
+		}
+	}
 	if p.Kind == PArr {
 		at := t.Underlying().(*types.Array)
 		av := v.(ArrV)
